@@ -543,6 +543,13 @@ def _decorate(text: str, sp: Spelling) -> str:
                     macros.append(f"macro {name} [\n  {s} // first\n  # second\n  {nxt}\n]")
                     out.append(ln[: len(ln) - len(s)] + "${" + name + "}")
                     skip.add(i + 1)
+                elif len(macros) % 3 == 0 and sp.noise >= 2 and i + 1 < len(lines) and lines[i + 1].strip() and not lines[i + 1].strip().startswith(("task ", "}")):
+                    # body that ends in a '//' comment, call followed by the next statement on the same line, and a
+                    # commented-out earlier version of the macro with another body
+                    nxt = lines[i + 1].strip()
+                    macros.append(f"macro {name} [ {s} // as agreed\n]\n# macro {name} [ effort 99d ]\n// macro {name} [ milestone ]")
+                    out.append(ln[: len(ln) - len(s)] + "${" + name + "} " + nxt)
+                    skip.add(i + 1)
                 else:
                     macros.append(f"macro {name} [\n  {s}\n]")
                     out.append(ln[: len(ln) - len(s)] + "${" + name + "}")
